@@ -265,6 +265,20 @@ func c20Shutdown(r *core.Run, agentBin string, md *fakes.Metadata, c c20ShutCase
 	if c.GraceS > 0 {
 		args = append(args, fmt.Sprintf("--graceful-shutdown-timeout=%ds", c.GraceS))
 	}
+	fetchHeld := make(chan struct{}, 1)
+	if c.Phase == "listed" {
+		px.OnFetch = func(id string, w http.ResponseWriter, req *http.Request) bool {
+			select {
+			case fetchHeld <- struct{}{}:
+			default:
+			}
+			select {
+			case <-release:
+			case <-time.After(25 * time.Second):
+			}
+			return false
+		}
+	}
 	agent, err := startAgent(r, agentBin, "agent-"+c.Name, md, px.URL(), backend.Addr(), "b20-"+c.Name, args...)
 	if err != nil {
 		r.Broken(err.Error())
@@ -294,10 +308,14 @@ func c20Shutdown(r *core.Run, agentBin string, md *fakes.Metadata, c c20ShutCase
 	if c.Phase != "idle" {
 		px.Store(tok, tokRequest("GET", tok, 4000, 0, "c20.example", nil, nil), "")
 		l1.rel <- []byte(fmt.Sprintf("[%q]", tok))
+		reached := atBackend
+		if c.Phase == "listed" {
+			reached = fetchHeld
+		}
 		select {
-		case <-atBackend:
+		case <-reached:
 		case <-time.After(20 * time.Second):
-			r.Inconclusive("shutdown scenario " + c.Name + ": request never reached the backend")
+			r.Inconclusive("shutdown scenario " + c.Name + ": request never reached phase " + c.Phase)
 			return
 		}
 		if c.Phase == "uploading" {
@@ -383,7 +401,7 @@ func c20Shutdown(r *core.Run, agentBin string, md *fakes.Metadata, c c20ShutCase
 	}
 	_ = extraBefore
 	// the forwarded request must be answered in full when the backend finished inside the period
-	if c.Phase != "idle" && c.Finish == "inside" {
+	if (c.Phase == "at-backend" || c.Phase == "uploading") && c.Finish == "inside" {
 		ups := px.Uploads(tok)
 		ok := false
 		var why string
@@ -419,7 +437,7 @@ func c20Shutdown(r *core.Run, agentBin string, md *fakes.Metadata, c c20ShutCase
 
 // C20 — agent lifecycle.
 func C20(r *core.Run) {
-	r.SetRule("real agent binary; health histories at 1 s interval F^k P (late backend), P (F^(t-1) P)^m F^t for thresholds t in 1..3 and failure kinds {non-200, connection closed}, ordering oracles on one clock (no proxy request before the first passing reply was sent; no exit with fewer than t trailing failures; exit within 10 s of the t-th); shutdown scenarios signal {INT,TERM} x grace {off,2s,5s} x phase of one in-flight request {idle, at backend, uploading} (phases held by the harness) x backend finishing inside/outside the period; class = scenario tuple")
+	r.SetRule("real agent binary; health histories at 1 s interval F^k P (late backend), P (F^(t-1) P)^m F^t for thresholds t in 1..3 and failure kinds {non-200, connection closed}, ordering oracles on one clock (no proxy request before the first passing reply was sent; no exit with fewer than t trailing failures; exit within 10 s of the t-th); shutdown scenarios signal {INT,TERM} x grace {off,2s,5s} x phase of one in-flight request {idle, listed-not-fetched, at backend, uploading} (phases held by the harness) x backend finishing inside/outside the period; class = scenario tuple")
 	r.Assume("progress bound T=10s; 'inside' means the backend finishes 1 s after the signal with >= 1 s of the period left, a miss is confirmed by a solo re-run; phases before the request reaches the backend are outside the statement")
 	agentBin := r.MustBuild(r.BuildRepoBinary("./agent", "agent"))
 	md, err := fakes.NewMetadata()
@@ -453,9 +471,9 @@ func C20(r *core.Run) {
 	}
 	for _, sig := range []string{"INT", "TERM"} {
 		for _, g := range []int{0, 2, 5} {
-			for _, ph := range []string{"idle", "at-backend", "uploading"} {
+			for _, ph := range []string{"idle", "listed", "at-backend", "uploading"} {
 				for _, fin := range []string{"inside", "outside"} {
-					if ph == "idle" && fin == "outside" {
+					if (ph == "idle" || ph == "listed") && fin == "outside" {
 						continue
 					}
 					if g == 0 && fin == "outside" {
@@ -465,7 +483,7 @@ func C20(r *core.Run) {
 					if fin == "outside" {
 						c.FinishS = float64(g) + 2
 					}
-					if r.Quick() && !(sig == "INT" && g == 2 || sig == "TERM" && (g == 0 && ph != "uploading" || g == 2 && ph == "at-backend" && fin == "inside")) {
+					if r.Quick() && !(sig == "INT" && g == 2 || sig == "TERM" && (g == 0 && ph != "uploading" && ph != "listed" || g == 2 && ph == "at-backend" && fin == "inside")) {
 						continue
 					}
 					c.Name = fmt.Sprintf("s%d", len(scs))
